@@ -119,6 +119,40 @@ func c17KeyPairs() fw.Result {
 			}
 		}
 	}
+	// two grouping columns: text tuples that collide under any "join the components with a middle" key encoding
+	sql2 := "SELECT j, k, count(*) AS c, sum(v) AS s FROM stream GROUP BY j, k, GLOBAL WINDOW TRIGGER WHEN count(*) >= 2"
+	for _, pr := range middlePairs() {
+		var rows []Row
+		for n, v := range []float64{1, 10, 2, 20} {
+			rows = append(rows, Row{"id": n + 1, "v": v, "j": pr[n%2][0], "k": pr[n%2][1]})
+		}
+		r := detExec(sql2, detOpts{Eager: true, Horizon: 100 * vtime.Millisecond}, func(e *Env) {
+			for _, row := range rows {
+				e.Emit(copyVal(row).(map[string]any))
+			}
+		})
+		a.r.Evaluations++
+		a.r.States++
+		a.r.Nontrivial++
+		a.r.Transitions += int64(r.Steps)
+		cs := map[string]any{"sql": sql2, "rows": rows}
+		if r.ExecErr != "" || r.Status != sched.StatusOK {
+			a.fail("C17|key-pairs|exec", r.ExecErr+" "+r.Status.String()+" "+firstLine(r.Panic), cs, nil, nil)
+			continue
+		}
+		var got []string
+		for _, b := range r.Batches {
+			for _, row := range b {
+				c, _ := num(row["c"])
+				s, _ := num(row["s"])
+				got = append(got, fmt.Sprintf("(%v,%v):c=%v,s=%v", row["j"], row["k"], c, s))
+			}
+		}
+		want := []string{fmt.Sprintf("(%v,%v):c=2,s=3", pr[0][0], pr[0][1]), fmt.Sprintf("(%v,%v):c=2,s=30", pr[1][0], pr[1][1])}
+		if strings.Join(got, ";") != strings.Join(want, ";") {
+			a.fail("C17|key-pairs|groups-confused|text+text|cols=2", fmt.Sprintf("%s; rows keyed %q,%q alternately with v=1,10,2,20: fired %q, reference %q", sql2, pr[0], pr[1], got, want), cs, want, got)
+		}
+	}
 	a.sample(map[string]any{"alphabet": len(gkeyAlphabet), "rows": "k1 v=1, k2 v=10, k1 v=2, k2 v=20", "trigger": "count(*) >= 2"})
 	return a.result()
 }
@@ -183,8 +217,77 @@ func c10KeyPairs() fw.Result {
 			}
 		}
 	}
+	sql2 := "SELECT j, k, count(*) AS c, collect(id) AS ids, window_start() AS ws, window_end() AS we FROM stream GROUP BY j, k, SessionWindow('2000ms') WITH (TIMESTAMP='ts', TIMEUNIT='ms')"
+	for _, pr := range middlePairs() {
+		var rows []Row
+		for n, ts := range []int64{10000, 10600, 11000} {
+			rows = append(rows, Row{"id": n + 1, "ts": ts, "j": pr[n%2][0], "k": pr[n%2][1]})
+		}
+		rows = append(rows, Row{"id": 99, "ts": int64(500000), "j": "zz", "k": "zz"})
+		r := detExec(sql2, detOpts{Eager: true, Horizon: 500 * vtime.Millisecond}, func(e *Env) {
+			for _, row := range rows {
+				e.Emit(copyVal(row).(map[string]any))
+			}
+		})
+		a.r.Evaluations++
+		a.r.States++
+		a.r.Nontrivial++
+		a.r.Transitions += int64(r.Steps)
+		cs := map[string]any{"sql": sql2, "rows": rows}
+		if r.ExecErr != "" || r.Status != sched.StatusOK {
+			a.fail("C10|key-pairs|exec", r.ExecErr+" "+r.Status.String()+" "+firstLine(r.Panic), cs, nil, nil)
+			continue
+		}
+		var got []string
+		for _, b := range r.Batches {
+			for _, row := range b {
+				ids := sortedInts(idList(row["ids"]))
+				if len(ids) == 1 && ids[0] == 99 {
+					continue
+				}
+				ws, _ := num(row["ws"])
+				we, _ := num(row["we"])
+				got = append(got, fmt.Sprintf("%v [%d,%d)", ids, int64(ws)/1000000, int64(we)/1000000))
+			}
+		}
+		sort.Strings(got)
+		want := []string{"[1 3] [10000,13000)", "[2] [10600,12600)"}
+		if strings.Join(got, ";") != strings.Join(want, ";") {
+			a.fail("C10|key-pairs|sessions-confused|text+text|cols=2", fmt.Sprintf("%s; rows keyed %q@10000, %q@10600, %q@11000: sessions %v, reference %v", sql2, pr[0], pr[1], pr[0], got, want), cs, want, got)
+		}
+	}
 	a.sample(map[string]any{"alphabet": len(gkeyAlphabet), "rows": "k1@10000, k2@10600, k1@11000, sentinel", "timeout_ms": 2000})
 	return a.result()
 }
 
 var _ = ref.Null
+
+// middlePairs: pairs of distinct two-component text tuples that collide under EVERY key encoding of the shape
+// prefix + c1 + middle + c2 + suffix (components joined by a separator, with or without a type tag in front of
+// each component): for a middle M the text p+M+q+M+r splits as (p, q+M+r) and as (p+M+q, r). Middles: 11
+// separators x 7 tags x 3 inner separators. Length-prefixed or escaped encodings keep all of them apart.
+func middlePairs() [][2][2]string {
+	var out [][2][2]string
+	seen := map[string]bool{}
+	seps := []string{"|", ":", ",", "\x1f", "\x00", "/", "#", ";", "_", "-", " "}
+	tags := []string{"", "string", "s", "str", "S", "text", "string:"}
+	for _, sep := range seps {
+		for _, tag := range tags {
+			inner := []string{""}
+			if tag != "" {
+				inner = []string{"", sep, ":"}
+			}
+			for _, in := range inner {
+				m := sep + tag + in
+				if seen[m] {
+					continue
+				}
+				seen[m] = true
+				for _, q := range []string{"", "q"} {
+					out = append(out, [2][2]string{{"x", q + m + "Y"}, {"x" + m + q, "Y"}})
+				}
+			}
+		}
+	}
+	return out
+}
